@@ -295,6 +295,11 @@ func (r *SparseInt32Vector) VDIVS(a *SparseInt32Vector, b Int32) *SparseInt32Vec
   if r.Dim() != a.Dim() {
     panic("vector dimensions do not match")
   }
+  if b.GetFloat64() == 0.0 {
+    // division by zero also affects the elements that are not stored
+    r.VdivS(a, b)
+    return r
+  }
   for it := r.JOINT_ITERATOR_(a); it.Ok(); it.Next() {
     s_r := it.s1
     s_a := it.s2
